@@ -270,13 +270,21 @@ def run(db: DB, rep: Report) -> None:
     gd = db.func("teaal.ir.partitioning.Partitioning.get_dyn_rank")
     rp = gd.call_params[0]
     n_d12 = 0
+    outs12 = []
     for r in [n for n in walk_no_nested(gd.node) if isinstance(n, ast.Return) and n.value is not None]:
-        v = paths.resolve_flow(r.value, r, gd.node, depth=2)
+        v0 = paths.resolve_flow(r.value, r, gd.node, depth=2)
+        if isinstance(v0, ast.IfExp):
+            # return A if T else B
+            outs12.append((r, v0.body, [(v0.test, True)]))
+            outs12.append((r, v0.orelse, [(v0.test, False)]))
+        else:
+            outs12.append((r, v0, []))
+    for r, v, extra in outs12:
         if norm(v) == rp:
             continue                     # the rank itself: bound by its own loop
         n_d12 += 1
         vt = norm(v)
-        tests = [(paths.inlined_text(a, gd.node), p_) for t, pol in paths.guards(r, stop=gd.node)
+        tests = [(paths.inlined_text(a, gd.node), p_) for t, pol in list(paths.guards(r, stop=gd.node)) + extra
                  for a, p_ in paths.conjuncts(t, pol)]
         exists = any(p_ and vt in t_ and (" in " in t_) and "not in" not in t_ for t_, p_ in tests)
         graphy = bool(tests) and all(("RankNode" in t_ or "self.graph" in t_ or "is_flattened" in t_)
